@@ -33,6 +33,9 @@ structure CodecCfg where
   manReadBytes : RbMode
   manPeersBounded : Bool
   manFrameBounded : Bool
+  /-- the raft-pointer and region arms of `decodeEdit` test `pos < len(data)` (a payload-less
+  edit decodes to a nil payload); `false`: `pos <= len(data)` (it decodes to an all-zero one) -/
+  manNilPayloadLt : Bool
   entryAllocBounded : Bool
   vsDecodeChecked : Bool
   raftLenGuard : LenGuard
@@ -48,14 +51,14 @@ structure CodecCfg where
 
 def CodecCfg.good : CodecCfg :=
   { lockLenGuard := .u64, writeLenGuard := .u64, manUvarint := .sticky, manReadBytes := .sticky,
-    manPeersBounded := true, manFrameBounded := true, entryAllocBounded := true,
+    manPeersBounded := true, manFrameBounded := true, manNilPayloadLt := true, entryAllocBounded := true,
     vsDecodeChecked := true, raftLenGuard := .u64, parseTsMin := .lt, tsInverted := true,
     cmpPrefixSuffix := true, cfMarkerOk := true }
 
 /-- The configuration of the pinned tree (8e65284), for the `…_fails_asis_…` witnesses. -/
 def CodecCfg.asis : CodecCfg :=
   { lockLenGuard := .intwrap, writeLenGuard := .intwrap, manUvarint := .raw, manReadBytes := .intwrap,
-    manPeersBounded := false, manFrameBounded := false, entryAllocBounded := false,
+    manPeersBounded := false, manFrameBounded := false, manNilPayloadLt := false, entryAllocBounded := false,
     vsDecodeChecked := false, raftLenGuard := .intwrap, parseTsMin := .le, tsInverted := true,
     cmpPrefixSuffix := true, cfMarkerOk := true }
 
